@@ -256,6 +256,19 @@ func c15r5(p *Prog, r *Reporter) {
 		}
 		for _, b := range fn.Blocks {
 			for _, ins := range b.Instrs {
+				// clear(s) of a whole slice is the same reset written with the builtin
+				if c, ok := ins.(*ssa.Call); ok {
+					if bi, ok := c.Call.Value.(*ssa.Builtin); ok && bi.Name() == "clear" && len(c.Call.Args) == 1 {
+						if _, isSlice := c.Call.Args[0].Type().Underlying().(*types.Slice); isSlice {
+							if _, resliced := c.Call.Args[0].(*ssa.Slice); !resliced {
+								r.OK(p.FuncName(fn), "clears elements of "+apath(c.Call.Args[0]), p.Pos(c.Pos()), "clear() of the whole slice")
+							} else {
+								r.Bad(p.FuncName(fn), "clears elements of "+apath(c.Call.Args[0]), p.Pos(c.Pos()), "element-wise reset does not provably cover the whole slice: clear() of a re-sliced part")
+							}
+						}
+					}
+					continue
+				}
 				st, ok := ins.(*ssa.Store)
 				if !ok {
 					continue
